@@ -899,7 +899,19 @@ pub const BOUNDS: [(&str, &str); 16] = [
 ];
 
 pub fn bound_token(s: &str) -> Option<String> {
-    BOUNDS.iter().find(|(t, _)| *t == s).map(|(_, m)| m.to_string())
+    if let Some(m) = BOUNDS.iter().find(|(t, _)| *t == s).map(|(_, m)| m.to_string()) {
+        return Some(m);
+    }
+    // the boundary generator derives bounds from current scores: `[(]<integer>`
+    let (excl, num) = match s.strip_prefix('(') {
+        Some(r) => (true, r),
+        None => (false, s),
+    };
+    let v: i64 = num.parse().ok()?;
+    if v.to_string() != num {
+        return None;
+    }
+    Some(format!("{}{}", if excl { "e" } else { "i" }, v))
 }
 
 fn zscore_val(rng: &mut Rng) -> f64 {
@@ -1153,7 +1165,7 @@ pub fn run_scripted(out: &mut Out, prop: &str, name: &str, steps: Vec<Scripted>)
 }
 
 /// one random sequence of 1..=60 commands
-pub fn run_random_sequence(out: &mut Out, rng: &mut Rng, prop: &str, gen: &dyn Fn(&mut Rng, u64) -> Command) {
+pub fn run_random_sequence(out: &mut Out, rng: &mut Rng, prop: &str, gen: &dyn Fn(&mut Rng, u64) -> Command, boundary_pct: u64) {
     let start = BASE_MS + rng.below(5000);
     let mut s = reset(out, start);
     let len = match rng.below(10) {
@@ -1173,6 +1185,12 @@ pub fn run_random_sequence(out: &mut Out, rng: &mut Rng, prop: &str, gen: &dyn F
             out.count(if evict { "clock:set_time" } else { "clock:update_time_readonly" });
         }
         s.set_now(t, evict);
+        if rng.below(100) < boundary_pct {
+            // a boundary input computed from the current state (harness/src/boundary.rs)
+            let mut cx = crate::boundary::Ctx { out, s: &mut s, seq: &mut seq, prop, canon: &mut canon, changed: &mut changed, informative: &mut informative };
+            crate::boundary::random_boundary(&mut cx, rng);
+            continue;
+        }
         let cmd = gen(rng, s.now);
         seq.push(format!("t={}{} {:?}", t, if evict { "" } else { " (clock only)" }, cmd));
         let so = do_step(out, &mut s, &cmd, prop, &seq);
